@@ -42,7 +42,7 @@ impl Problem {
     }
     pub fn base_dim(&self) -> usize {
         match self.kind.as_str() {
-            "sho" | "vdp" | "lin2" => 2,
+            "sho" | "vdp" | "vdpe" | "lin2" => 2,
             "robertson" | "lin3" => 3,
             "chain4" | "cascade4" => 4,
             "empty" => 0,
@@ -64,6 +64,7 @@ impl Problem {
             "signc" => vec![0.0],
             "robertson" => vec![1.0, 0.0, 0.0],
             "vdp" => vec![2.0, 0.0],
+            "vdpe" => vec![2.0, -0.66],
             "lin2" => vec![1.0, 0.5],
             "lin3" => vec![1.0, -0.5, 0.25],
             "chain4" | "cascade4" => vec![1.0, 0.0, 0.0, 0.0],
@@ -100,6 +101,11 @@ impl Problem {
             "vdp" => {
                 d[0] = y[1];
                 d[1] = p * ((1.0 - y[0] * y[0]) * y[1]) - y[0];
+            }
+            // Van der Pol in the singular-perturbation form, p = eps
+            "vdpe" => {
+                d[0] = y[1];
+                d[1] = ((1.0 - y[0] * y[0]) * y[1] - y[0]) / p;
             }
             "nan_after" => d[0] = if t < p { -y[0] } else { f64::NAN },
             "inf_after" => d[0] = if t < p { -y[0] } else { f64::INFINITY },
@@ -168,6 +174,12 @@ impl Problem {
                 j[1] = 1.0;
                 j[2] = p * (-2.0 * y[0] * y[1]) - 1.0;
                 j[3] = p * (1.0 - y[0] * y[0]);
+            }
+            "vdpe" => {
+                j[0] = 0.0;
+                j[1] = 1.0;
+                j[2] = (-2.0 * y[0] * y[1] - 1.0) / p;
+                j[3] = (1.0 - y[0] * y[0]) / p;
             }
             "lin2" => {
                 j[0] = -0.5;
